@@ -156,9 +156,8 @@ Definition wstat_plan (dotu : bool) (root path : hpath) (w : wstat_req) : cres :
   | Some (path', ren) =>
     let trunc := if w_length w =? ones64 then [] else [STruncate path' (w_length w)] in
     let times := if (w_mtime w =? ones32) && (w_atime w =? ones32) then []
-                 else (if (w_mtime w =? ones32) || (w_atime w =? ones32) then [SStat path'] else [])
-                      ++ [SChtimes path' (Some (w_atime w))     (* as written: a lone atime sentinel is passed on as a time *)
-                                   (if w_mtime w =? ones32 then None else Some (w_mtime w))] in
+                 else [SChtimes path' (if w_atime w =? ones32 then None else Some (w_atime w))
+                                      (if w_mtime w =? ones32 then None else Some (w_mtime w))] in
     CPlan (chmod ++ chown ++ ren ++ trunc ++ times)
   end.
 
